@@ -482,6 +482,101 @@ func coordinatedInlineEdit(r *Rng, p *PReg, stats *Stats) []byte {
 	return b
 }
 
+// amplifyEdit builds a large register out of a small healthy one, the way a decoder could be made to allocate
+// out of proportion to its input: the shared entry of a compact map gets a long digest list (and, mostly, an empty
+// key list), the inlined maps that refer to it are stripped of their values, and the first of them is repeated
+// many times in the parent's element list (the element count follows).  Every instance is a few bytes of input;
+// what a decoder allocates per instance must stay in proportion.
+func amplifyEdit(r *Rng, p *PReg, stats *Stats) []byte {
+	if p.Kind != "arr.data" || !p.FlagIED || p.ContentLen < 3 {
+		return nil
+	}
+	var cand []int
+	for i, x := range p.IED {
+		if x.Kind == "cmap" && x.DigEnd > x.DigPos && x.KeysEnd > x.KeysPos {
+			cand = append(cand, i)
+		}
+	}
+	if len(cand) == 0 {
+		return nil
+	}
+	xi := cand[r.Intn(len(cand))]
+	x := p.IED[xi]
+	var users []*PElem
+	for i := range p.Elems {
+		if e := &p.Elems[i]; e.Kind == "inl.cmap" && e.XI == xi {
+			users = append(users, e)
+		}
+	}
+	if len(users) == 0 {
+		return nil
+	}
+	type edit struct {
+		pos, del int
+		ins      []byte
+	}
+	var edits []edit
+	nd := []int{64, 512, 2048, 8000}[r.Intn(4)]
+	dig := make([]byte, 3+8*nd)
+	dig[0] = 0x59
+	binary.BigEndian.PutUint16(dig[1:], uint16(8*nd))
+	for i := 0; i < nd; i++ {
+		binary.BigEndian.PutUint64(dig[3+8*i:], uint64(i+1)*0x9e3779b97f4a7c15)
+	}
+	edits = append(edits, edit{x.DigPos, x.DigEnd - x.DigPos, dig})
+	if r.Chance(0.7) {
+		edits = append(edits, edit{x.KeysPos, x.KeysEnd - x.KeysPos, []byte{0x80}})
+	}
+	for _, u := range users {
+		end := u.Start + u.Size
+		if u.CntPos <= u.Start || u.CntPos >= end {
+			return nil
+		}
+		edits = append(edits, edit{u.CntPos, end - u.CntPos, []byte{0x80}})
+	}
+	u0 := users[0]
+	inst := append(append([]byte{}, p.Raw[u0.Start:u0.CntPos]...), 0x80)
+	rep := []int{50, 500, 3000}[r.Intn(3)]
+	off := len(p.Raw) - p.ContentLen
+	if p.Raw[off] != 0x99 {
+		return nil
+	}
+	n := int(binary.BigEndian.Uint16(p.Raw[off+1:]))
+	if n+rep > 0xffff {
+		rep = 0xffff - n
+	}
+	var tail []byte
+	for i := 0; i < rep; i++ {
+		tail = append(tail, inst...)
+	}
+	edits = append(edits, edit{len(p.Raw), 0, tail})
+	cnt := []byte{0x99, 0, 0}
+	binary.BigEndian.PutUint16(cnt[1:], uint16(n+rep))
+	edits = append(edits, edit{off, 3, cnt})
+	sort.SliceStable(edits, func(i, j int) bool { return edits[i].pos > edits[j].pos })
+	b := append([]byte{}, p.Raw...)
+	for _, e := range edits {
+		if e.pos < 0 || e.pos+e.del > len(b) {
+			return nil
+		}
+		b = append(b[:e.pos:e.pos], append(append([]byte{}, e.ins...), b[e.pos+e.del:]...)...)
+	}
+	stats.Inc("disk.struct.amplify")
+	return b
+}
+
+// tryAmplify applies amplifyEdit to a third of the registers it is applicable to (they are rare).
+func tryAmplify(r *Rng, id RegID, raw []byte, stats *Stats) []byte {
+	if len(raw) < 2 || raw[0]&0x01 == 0 || raw[1]&0x1f != 0x00 {
+		return nil // no shared section, or not an array data slab
+	}
+	p, err := ParseRegister(id, raw)
+	if err != nil || !r.Chance(0.3) {
+		return nil
+	}
+	return amplifyEdit(r, p, stats)
+}
+
 // wideUintEdit replaces one unsigned integer that a decoder later uses as an index, a count or a capacity by a
 // wide (4- or 8-byte) CBOR integer with a boundary value: the top bit set (negative after a conversion to int),
 // all ones, just above 2^32 / 2^31 / 2^16, or a plausible-looking but enormous count.  Candidates: indexes into
@@ -602,6 +697,13 @@ func init() {
 		// build a healthy ledger
 		w := NewWorld(cfg, NewStats())
 		prof := sizeAdversarialProfile(r.Sub("profile"), cfg)
+		if r.Sub("records").Chance(0.4) {
+			// nesting-centred histories with many records of one composite type: registers with shared
+			// (inlined extra data) sections, compact maps and their users
+			prof = nestedProfile(r.Sub("profile-nested"), cfg)
+			prof.CompositeProb = 0.8
+			prof.RootMapShare = 0.2
+		}
 		prof.Owners = []uint64{1, 2}
 		prof.W["crash"], prof.W["dropcache"] = 0, 0
 		gen := NewGen(r.Sub("workload"), w, prof)
@@ -677,6 +779,8 @@ func init() {
 					input[1] = []byte{0x00, 0x01, 0x08, 0x09, 0x0b, 0x1f, 0x80, 0x81, 0x88, 0x89, 0x3f}[mr.Intn(11)]
 				}
 				agg.Inc("disk.random")
+			} else if amp := tryAmplify(mr, it.id, it.raw, agg); amp != nil {
+				input = amp
 			} else if mr.Chance(0.12) {
 				input = wideUintEdit(mr, it.id, it.raw, agg)
 			} else if mr.Chance(0.3) {
